@@ -171,6 +171,24 @@ CLAIMS["C11"] = (
     "clear-on-every-path form of D5 were written after seeds C11-a/b were known.",
     "DESIGN.md 4/C11")
 
+CLAIMS["C02"] = (
+    "R-SYMBOLIC by partial evaluation of the loop-free exactness tables for every global rule and level 0..12, compared with degree-of-exactness theorems that depend only on the number "
+    "of nodes; R-COVER of the rule enumerators; routing of integrate()",
+    "Static rule discharge: for 35 global rules the declared quadrature exactness never exceeds what any rule of that class with the declared number of nodes can integrate "
+    "(Gauss 2n-1, Gauss-Patterson (3n+1)/2, interpolatory n-1 plus one degree by symmetry only for odd n), tables are monotone, every global rule has an explicit case, and integrate() "
+    "is routed through the same weights/basis integrals as getQuadratureWeights. An over-claim in the table lists a monomial in getGlobalPolynomialSpace(false) that cannot be integrated, "
+    "for every grid built with that rule: this is the part of C02 that is visible in code shape.",
+    "Exactness of the computed nodes, weights, tensor weights and assembled sparse-grid weights for all configurations is numerical and NOT decided (seed C02-b, a 0/0 in the Gauss-Jacobi "
+    "recurrence for alpha+beta=-1, is out of reach and documented as missed). The laws are upper bounds; under-claims are reported as notes.",
+    "DESIGN.md 4/C02")
+CLAIMS["C03"] = (
+    "partial evaluation of the interpolation-exactness table for every global rule and level 0..12 against the bound n-1 (frozen exceptions clenshaw-curtis-zero and fourier), R-COVER, routing",
+    "Static rule discharge (thin claim): the declared interpolation space never lists a monomial that n nodes cannot reproduce, the tables are monotone and total over the global rules, and "
+    "the value and weight routes of Global and Sequence grids share their basis routines.",
+    "Exact reproduction at arbitrary x (Lagrange caches, Newton transform, DFT weights, DAG transform, wavelet solve) and 'weights sum to one' are numerical and not decided. This is a "
+    "table-and-routing claim only.",
+    "DESIGN.md 4/C03")
+
 PENDING = {}
 
 NOT_APPLICABLE = {}
